@@ -714,6 +714,36 @@ def main(repo: str, outpath: str) -> int:
                     continue
                 exists = os.path.isfile(os.path.join(repo, "htmltools", "lib", pkg, src))
                 libs.append((pkg, src, exists))
+        # the same calls written as a comprehension over a constant table of (pkg, file) pairs:
+        #   [_lib_dependency(pkg, script={"src": src}) for pkg, src in PAIRS]
+        for node in ast.walk(jsx):
+            if not (isinstance(node, (ast.ListComp, ast.GeneratorExp)) and len(node.generators) == 1):
+                continue
+            g, c = node.generators[0], node.elt
+            if not (isinstance(c, ast.Call) and isinstance(c.func, ast.Name) and c.func.id == "_lib_dependency"
+                    and len(c.args) == 1 and isinstance(c.args[0], ast.Name)):
+                continue
+            srcname = None
+            for kw in c.keywords:
+                if kw.arg == "script" and isinstance(kw.value, ast.Dict):
+                    for k, v in zip(kw.value.keys, kw.value.values):
+                        if const_str(k) == "src" and isinstance(v, ast.Name):
+                            srcname = v.id
+            ok = (srcname is not None and not g.ifs and isinstance(g.target, ast.Tuple) and len(g.target.elts) == 2
+                  and all(isinstance(t, ast.Name) for t in g.target.elts)
+                  and [t.id for t in g.target.elts] == [c.args[0].id, srcname])
+            pairs = None
+            if ok:
+                try:
+                    pairs = const_eval(g.iter, jsx)
+                except _NotConst:
+                    pairs = None
+            if (isinstance(pairs, list) and all(isinstance(p, list) and len(p) == 2 and all(isinstance(x, str) for x in p)
+                                                 for p in pairs)):
+                for pkg, src in pairs:
+                    libs.append((pkg, src, os.path.isfile(os.path.join(repo, "htmltools", "lib", pkg, src))))
+            else:
+                unrec("_lib_dependency comprehension over something that is not a constant table of pairs")
     rows = [f"({cstr(p)}, {cstr(s)}, {cbool(e)})" for p, s, e in libs]
     out.append("(* _lib_dependency(pkg, script={'src': file}) call sites of JSXTag.tagify, in order, and whether\n   htmltools/lib/<pkg>/<file> exists in the working tree *)")
     out.append("Definition jsx_lib_deps : list (list N * list N * bool) :=\n  " + clist(rows, "(list N * list N * bool)") + ".")
